@@ -453,7 +453,10 @@ class XsdGroup(XsdComponent, MutableSequence[ModelParticleType],
 
     def is_missing(self, occurs: OccursCounterType) -> bool:
         value = occurs[self.oid] or occurs[self]
-        return not self.is_emptiable() if value == 0 else self.min_occurs > value
+        if value == 0 or self.min_occurs > value:
+            # the occurrences still due can be empty if the content is emptiable
+            return not self.is_emptiable()
+        return False
 
     def get_expected(self, occurs: OccursCounterType) -> list[SchemaElementType]:
         """
